@@ -145,7 +145,7 @@ fn ack_emission(groups: usize) {
     std::mem::forget(hc);
 }
 
-//@h props=C11,C13,C10 tier=quick timeout=1200 role=ack-emission
+//@h props=C13,C11,C10 tier=quick timeout=1200 role=ack-emission
 //@fn HalfConnection::emit_ack_frames, AckFrameEmitter::{new, push_dud, push, finalize}, AckFrameBuilder, FrameAckQueue::{peek, pop, mark_seen}
 //@bound no ack group queued; sync-reply flag any; credit any isize
 //@assume crc::compute stubbed; small constructor
@@ -163,7 +163,7 @@ fn o11_2_ack_emission_no_groups() { ack_emission(0); }
 #[kani::stub(crate::frame::serial::crc::compute, crate::frame::serial::verif_codec::crc_stub)]
 fn o11_2_ack_emission_two_groups() { ack_emission(2); }
 
-//@h props=C03,C11,C02 tier=quick timeout=1200 role=sync-input
+//@h props=C11,C03,C02 tier=quick timeout=1200 role=sync-input
 //@fn HalfConnection::handle_sync_frame, FrameAckQueue::resynchronize, PacketReceiver::resynchronize
 //@bound fresh small connection (rx packet base 2^20-2, rx frame base 2^32-3, frame window 64); ONE sync frame whose two optional ids are ANY u32
 #[kani::proof]
